@@ -249,7 +249,7 @@ S_CliClose(k) ==
   /\ \A c \in Calls : ck[c] = k => cst[c] \notin {"queued", "sent"}
   /\ closed' = [closed EXCEPT ![k] = TRUE]
   /\ c2s' = [c2s EXCEPT ![k] = Append(@, <<"eof", 0>>)]
-  /\ y' = YClientGone(y, k)
+  /\ y' = YClientGone(YClientClose(y, k), k)
   /\ UNCHANGED <<lq, srv, ckey, chand, cdead, cq, cinf, cpend, s2c, sinf, respq, hs, cst, ck, dl, gate, now, phase, sched, nenv>>
 
 SysStep ==
